@@ -90,6 +90,10 @@ def main(argv=None) -> int:
             from .selftest import run_selftest
 
             rc = run_selftest(args.prop, args.repo, jobs=16, quiet=True)
+            if rc == 0:
+                from .alpha import run_alpha
+
+                rc = run_alpha([args.prop], args.repo, evidence=True)
         return rc
     if args.cmd == "all":
         worst = 0
